@@ -210,3 +210,25 @@ theorem T_psd_sqrt (A : Matrix n n 𝕜) (hA : A.PosSemidef) : (CFC.sqrt A).PosS
 theorem T_fnm_sim_exp (A : Matrix n n 𝕜) (d : n → 𝕜) (h : IsUnit A.det) :
     NormedSpace.exp (A * (diagonal d * A⁻¹)) = A * (diagonal (NormedSpace.exp d) * A⁻¹) := by
   rw [← Matrix.mul_assoc, ← Matrix.mul_assoc, Matrix.exp_conj A (diagonal d) ((Matrix.isUnit_iff_isUnit_det A).mpr h), Matrix.exp_diagonal]
+
+-- structure of the pseudo-inverse (axioms pinv_kron, pinv_bd of vcgen/alg.py): the Kronecker product / block diagonal of Penrose inverses satisfies the four Penrose equations
+-- of the Kronecker product / block diagonal; with T_penrose_unique it IS the pseudo-inverse
+section PenroseStructure
+variable {p q : Type*} [Fintype p] [Fintype q] [DecidableEq p] [DecidableEq q]
+
+theorem T_penrose_kron (A : Matrix m n 𝕜) (X : Matrix n m 𝕜) (B : Matrix p q 𝕜) (Y : Matrix q p 𝕜) (hA : Penrose A X) (hB : Penrose B Y) :
+    Penrose (A ⊗ₖ B) (X ⊗ₖ Y) := by
+  obtain ⟨a1, a2, a3, a4⟩ := hA
+  obtain ⟨b1, b2, b3, b4⟩ := hB
+  refine ⟨?_, ?_, ?_, ?_⟩
+  · rw [← Matrix.mul_kronecker_mul, ← Matrix.mul_kronecker_mul, a1, b1]
+  · rw [← Matrix.mul_kronecker_mul, ← Matrix.mul_kronecker_mul, a2, b2]
+  · rw [← Matrix.mul_kronecker_mul, Matrix.conjTranspose_kronecker, a3, b3]
+  · rw [← Matrix.mul_kronecker_mul, Matrix.conjTranspose_kronecker, a4, b4]
+
+theorem T_penrose_bd (A : Matrix m n 𝕜) (X : Matrix n m 𝕜) (B : Matrix p q 𝕜) (Y : Matrix q p 𝕜) (hA : Penrose A X) (hB : Penrose B Y) :
+    Penrose (Matrix.fromBlocks A 0 0 B) (Matrix.fromBlocks X 0 0 Y) := by
+  obtain ⟨a1, a2, a3, a4⟩ := hA
+  obtain ⟨b1, b2, b3, b4⟩ := hB
+  refine ⟨?_, ?_, ?_, ?_⟩ <;> simp [Matrix.fromBlocks_multiply, Matrix.fromBlocks_conjTranspose, *]
+end PenroseStructure
